@@ -640,6 +640,15 @@ func checkC19(c c19Case) obs.Result {
 		if err == nil {
 			return obs.Violationf("dateTimeToEpoch(%q) = %q, want an error for unparsable input", bad, ep)
 		}
+		// and an epoch text that is no integer of the 64-bit range: an error, never an invented time
+		badEpoch := []string{"9223372036854775808", "-9223372036854775809", "99999999999999999999999", "NaN", "Inf", "-Infinity", "12a", "0x1p4", "--1", "1 2"}[c.MutPos%10]
+		tz := []string{}
+		if c.ToTZ != "" {
+			tz = append(tz, c.ToTZ)
+		}
+		if out, err := customfuncs.EpochToDateTimeRFC3339(nil, badEpoch, c.Unit, tz...); err == nil {
+			return obs.Violationf("epochToDateTimeRFC3339(%q, %s, %v) = %q, want an error for an unparsable epoch", badEpoch, c.Unit, tz, out)
+		}
 		return obs.OK(false, append(classes, fmt.Sprintf("invalid-%d", c.Mut%4))...)
 	}
 
@@ -769,9 +778,10 @@ func checkC19(c c19Case) obs.Result {
 		return obs.OK(nt, classes...)
 
 	case 2, 4: // dateTimeToEpoch (and round trip through epochToDateTimeRFC3339)
-		// instants are on whole seconds (SECOND) / whole milliseconds (MILLISECOND) and the text must carry them
+		// instants are on whole milliseconds and the text carries them; with unit SECOND the Unix time of an instant inside
+		// a second is that second (the number of whole seconds elapsed: floor, also before 1970), whatever the fraction
 		cc := c
-		if c.Unit == "SECOND" {
+		if c.Unit == "SECOND" && c.MutPos%3 == 0 {
 			cc.Nanos = 0
 		}
 		if cc.TimeFmt == 0 || cc.TimeFmt == 3 || cc.TimeFmt == 5 {
